@@ -155,6 +155,13 @@ def r2(ctx, cls, wk):
   loops = [n for n in ast.walk(wk.node) if isinstance(n, ast.For)]
   ll = [n for n in loops if any(isinstance(c, ast.Call) and call_attr(c) == '_on_leave' for c in ast.walk(n))]
   jl = [n for n in loops if any(isinstance(c, ast.Call) and call_attr(c) == '_on_join' for c in ast.walk(n))]
+  # every member of a batch is offered to its callback: the delivery loops are left only by running out of elements (or by an exception)
+  for lp_, what_ in [(x, 'leave') for x in ll] + [(x, 'join') for x in jl]:
+    esc = [n_ for n_ in walk_no_nested(lp_) if isinstance(n_, (ast.Break, ast.Return)) and not any(isinstance(inner, (ast.For, ast.While)) and inner is not lp_ and any(n_ is y for y in ast.walk(inner))
+                                                                                                      for inner in ast.walk(lp_))]
+    ctx.ob('C19.R2', wk, 'the %s loop visits every element of the batch' % what_, not esc,
+           'the loop that delivers %ss is left early by %s at line %s: the members after that one in the batch are never reported' % (
+             what_, type(esc[0]).__name__.lower() if esc else '', getattr(esc[0], 'lineno', '?') if esc else ''), why)
   ok = len(ll) == 1 and len(jl) == 1
   if ok:
     # order along every path of one worker iteration (positions of inlined helper code are not comparable by line)
